@@ -85,19 +85,34 @@ pub fn machinery_error(msg: &str) -> ! {
 
 static HOOK: std::sync::Once = std::sync::Once::new();
 
-/// Silence the default panic hook (panics inside the subject are observations).
+thread_local! {
+    static CATCH_DEPTH: std::cell::Cell<u32> = const { std::cell::Cell::new(0) };
+}
+
+/// Panics raised inside `catch` (i.e. inside the subject) are observations and stay silent;
+/// panics anywhere else are harness bugs and are printed with their location.
 pub fn quiet_panics() {
     HOOK.call_once(|| {
-        if std::env::var("VERIF_PANIC_TRACE").is_err() {
-            std::panic::set_hook(Box::new(|_| {}));
-        }
+        let default = std::panic::take_hook();
+        std::panic::set_hook(Box::new(move |info| {
+            let inside = CATCH_DEPTH.with(|d| d.get()) > 0;
+            if !inside || std::env::var("VERIF_PANIC_TRACE").is_ok() {
+                if !inside {
+                    eprintln!("MACHINERY-ERROR: panic outside the subject (harness bug):");
+                }
+                default(info);
+            }
+        }));
     });
 }
 
 /// Run `f`, turning a panic into `Err(message)`.
 pub fn catch<T>(f: impl FnOnce() -> T) -> Result<T, String> {
     quiet_panics();
-    catch_unwind(AssertUnwindSafe(f)).map_err(|e| {
+    CATCH_DEPTH.with(|d| d.set(d.get() + 1));
+    let r = catch_unwind(AssertUnwindSafe(f));
+    CATCH_DEPTH.with(|d| d.set(d.get() - 1));
+    r.map_err(|e| {
         if let Some(s) = e.downcast_ref::<&str>() {
             s.to_string()
         } else if let Some(s) = e.downcast_ref::<String>() {
@@ -204,6 +219,10 @@ impl Run {
         let mut g = self.inner.lock().unwrap();
         g.evaluations += n;
         g.nontrivial_extra += n;
+    }
+    /// Add `n` to the distinct/non-trivial count without adding evaluations.
+    pub fn eval_distinct_only(&self, n: u64) {
+        self.inner.lock().unwrap().nontrivial_extra += n;
     }
     pub fn nontrivial(&self, class: &[u8]) {
         self.inner.lock().unwrap().nontrivial.insert(key128(class));
